@@ -14,6 +14,8 @@ pub mod dbm;
 pub mod net;
 pub mod retrier;
 mod ser;
+#[cfg(feature = "verif")]
+pub mod verif_net;
 pub mod wt_client;
 
 #[cfg(test)]
